@@ -18,7 +18,7 @@ import (
 // the source from the empty document, second patch goes source -> target) or 3 (chains).
 
 // c19Docs generates the document set: keys {a, b, a/b, ~k}, values primitive / object / array,
-// depth <= 2, width <= 2.
+// depth <= 2, width <= 2, plus keys made of JSON-pointer escape sequences.
 func c19Docs(size string) []string {
 	prims := []interface{}{"s", 1.0, true}
 	leaves := []interface{}{"s", 2.0, false, map[string]interface{}{}, []interface{}{}}
@@ -66,6 +66,15 @@ func c19Docs(size string) []string {
 			}
 		}
 	}
+	// JSON-pointer escaping: keys whose text contains the escape sequences themselves ("~1", "~0", "~01")
+	// next to the characters they stand for, at the top level and as parent of an in-place edit
+	for _, k := range []string{"x~1y", "~0", "~01", "x/y"} {
+		add(map[string]interface{}{k: "s"})
+		add(map[string]interface{}{k: map[string]interface{}{"x": "s"}})
+		add(map[string]interface{}{k: map[string]interface{}{"x": "t", "x~1y": "u"}})
+	}
+	add(map[string]interface{}{"x~1y": "v", "x/y": "w"})
+	add(map[string]interface{}{"~0": "v", "~": "w", "~01": "x", "/": "y"})
 	out := make([]string, 0, len(set))
 	for k := range set {
 		out = append(out, k)
